@@ -805,6 +805,41 @@ fn main() {
     }
 
 
+
+    // ---- T2: scan_octets with its fast path on raw token text (". 0 IN HINFO <token> \"\"")
+    let n_hinfo = (if a.thorough { 15000 } else { 2000 }) * a.scale as usize;
+    for i in 0..n_hinfo {
+        let q = r.chance(1, 2);
+        let mut tok: Vec<u8> = Vec::new();
+        let n = if i < 4 { 256 + i } else { 1 + r.below(8) as usize };
+        for _ in 0..n {
+            match r.below(12) {
+                0 => tok.push(0x7f),
+                1 => { tok.push(b'\\'); tok.push(*r.pick(b"\\\";( a.\x7f#")); }
+                2 => tok.extend(format!("\\{:03}", r.below(270)).bytes()),
+                3 => tok.push(*r.pick(b"@$#.[]*!~{}|")),
+                4 if q => tok.push(*r.pick(b" ;()\t\n\r")),
+                5 => tok.push(*r.pick(&[0x80u8, 0xc3, 0xa9, 0xff, 0x1f, 0x00])),
+                _ => tok.push(*r.pick(b"abcxyzABC0123456789-_")),
+            }
+        }
+        idx += 1; if !out.wants(idx) { continue; }
+        let c = format!("hinfo {} {}", if q { "q" } else { "u" }, hex(&tok));
+        out.begin(&c);
+        let mut line = b". 0 IN HINFO ".to_vec();
+        if q { line.push(b'"'); }
+        line.extend(&tok);
+        if q { line.push(b'"'); }
+        line.extend(b" \"\"\n");
+        let obs = match read_text(&line, None) {
+            Err(_) => "Panic".to_string(),
+            Ok(Err(_)) => "Err".to_string(),
+            Ok(Ok(v)) if v.len() == 1 => match v[0].data() { ZoneRecordData::Hinfo(h) => format!("Ok {}", hex(h.cpu().as_slice())), _ => "Err".to_string() },
+            Ok(Ok(_)) => "Err".to_string(),
+        };
+        out.case(&c, &obs, tok.contains(&0x7f) || tok.contains(&b'\\'), "reader_octets");
+    }
+
     // ---- T2: regular record types field by field (`rec`): the model renders the record with the
     //      schema T1 read off the type's ZonefileFmt / scan impls
     let n_rec = (if a.thorough { 400 } else { 40 }) * a.scale as usize;
